@@ -50,7 +50,9 @@ CHECKS["C19"] = dict(
          "cancel/join/await reachable from its owner's stop(), close() stops an object of every stoppable class and finishes its state update; close() evaluated on bundling layouts stops every transceiver, the SCTP transport and every "
          "DTLS / ICE transport reachable from them; pyOpenSSL calls on the DTLS stop() path are inside a handler for SSL.Error; `closed` is final for the ICE transport and a connect() completing after stop() is undone; "
          "RTCSctpTransport.stop() always runs the CLOSED transition; public methods that create objects are fenced by the closed check; __connect() starts media only over a connected DTLS transport; once closed the aggregated states latch on `closed` and stay silent; every data channel "
-         "container is drained; a receiver that was never started still ends its remote track. "
+         "container is drained; a receiver that was never started still ends its remote track; no loop that suspends iterates over a live set / dict attribute that other methods change; a task that stop() cancels or waits for is "
+         "created before the first suspension or behind a state guard; close() placed between any two negotiation calls of enumerated configurations (negotiation methods interpreted at the AST level, stand-in transports) stops every "
+         "transport / sender / receiver the connection created, leaves the three states closed, does nothing the second time and makes later negotiation calls raise InvalidStateError (C19-SIM). "
          "It does not decide bounded-time completion under every interleaving or the absence of events after close.",
     ref="DESIGN.md section 3 C19")
 
@@ -122,7 +124,7 @@ CHECKS["C04"] = dict(
          "the RFC 5764 mirror-image key/salt slices for the three profiles; SRTP failures deliver nothing; the first-byte demultiplexer equals RFC 7983 for all 256 values and "
          "is_rtcp separates RTCP from negotiable RTP payload types; one turn of the receive pump, evaluated for every datagram class x transport state, delivers exactly the authenticated and parsed packets - "
          "each RTCP packet of a compound to each recipient once - and application data only when connected; start() evaluated over handshake / identity / key outcomes connects and starts the pump only when all three succeeded; the fingerprint hash table follows RFC 8122 "
-         "and the DTLS read size covers the records written. It does not decide what OpenSSL/libsrtp do.",
+         "and the DTLS read size covers the records written; the inbound SRTP policy's replay window covers the outbound policy's window and the retransmission history. It does not decide what OpenSSL/libsrtp do.",
     ref="DESIGN.md section 3 C04")
 CHECKS["C08"] = dict(
     technique="reader/writer struct-format and field-order extraction; finite-domain evaluation of parameter and padding arithmetic over all length residues; must-event guard on the checksum gate; registry constants",
